@@ -316,7 +316,9 @@ class StreamingHandler(AsyncCallbackHandler, AsyncIterator):
             if token == "":
                 return
 
-        await self.push_chunk(chunk)
+        # The `chunk` is optional in the callback interface: an LLM that does not provide it
+        # only sends the text of the token
+        await self.push_chunk(chunk if chunk is not None else token)
 
     async def on_llm_end(
         self,
